@@ -99,6 +99,7 @@ Record tagjob := mkTj {
 Record convjob := mkCj {
   cj_sets : list (N * N);          (* (converter, streams) *)
   cj_ver : N -> N;                 (* versions in the index snapshot of the job *)
+  cj_next : N;                     (* streams of the snapshot: ids below cj_next *)
   cj_done : bool }.
 
 Record mergejob := mkMj { mj_off : nat; mj_idx : list N; mj_res : option (list N) }.
@@ -255,7 +256,7 @@ Definition start_converter (st : state) : state :=
     | _ =>
       let sets := map (fun c => (c, toconv st c)) act in
       let tc := fun c => if memN c act then 0 else toconv st c in
-      set_cupd (set_jconv (set_toconv st tc) (Some (mkCj sets (ver st) false))) 0
+      set_cupd (set_jconv (set_toconv st tc) (Some (mkCj sets (ver st) (next st) false))) 0
     end
   end.
 
@@ -477,13 +478,16 @@ Definition step (k : kf) (pick : N) (a : action) (st : state) : state :=
     | Some j =>
       if cj_done j then st else
       (* per (converter, stream): alreadyCached -> dropped from the set; else converted at the snapshot version *)
-      let sets' := map (fun cs => (fst cs, fold_left (fun a i => match cache st (fst cs) i with Some _ => a | None => add1 i a end)
+      (* a stream that is in no index of the snapshot fails twice and is discarded (the unrepaired code waits forever) *)
+      let sets' := map (fun cs => (fst cs, fold_left (fun a i => match cache st (fst cs) i with
+                                                                 | Some _ => a
+                                                                 | None => if i <? cj_next j then add1 i a else a end)
                                                       (elems (snd cs)) 0)) (cj_sets j) in
       let cache' := fun c i => match cache st c i with
                                | Some v => Some v
                                | None => if mem i (lookupN c sets') then Some (cj_ver j i) else None
                                end in
-      set_jconv (set_cache st cache') (Some (mkCj sets' (cj_ver j) true))
+      set_jconv (set_cache st cache') (Some (mkCj sets' (cj_ver j) (cj_next j) true))
     | None => st
     end
   | ABodyMerge =>
@@ -544,7 +548,7 @@ Definition step (k : kf) (pick : N) (a : action) (st : state) : state :=
     end
   | AComplete JConvert =>
     match jconv st with
-    | Some (mkCj sets v true) =>
+    | Some (mkCj sets v _ true) =>
       let st0 := set_jconv st None in
       (* repaired: output of streams that changed while the job ran is dropped and queued again *)
       let st0' := if kf_inflight k then st0 else invalidate_converters st0 (m_cupd st0) in
